@@ -153,22 +153,29 @@ CHECKS = {
         technique="Coq proof (case analysis over all fault points of the step model, induction over copy blocks) on a model whose format table is translated from the source + vm_compute correspondence with exhaustive fault injection",
         design="5/C12"),
     "C13": dict(
-        text=("21 theorems about list models of the compaction in Collocator._create_return, _rows_for_secondaries, the NaN-padded "
-              "bin matrix of collapse, expand and concat_collocations, for every compact dataset (these closed under the global "
-              "context): pairs are valid indices and every stored point occurs; rows are running counts; column c of the bin matrix "
-              "holds exactly the partner values of reference c then padding (any lane of any extra dimension, either reference); "
-              "expand gives one row per pair with that pair's values; expand(concat ds) = concat (map expand ds) and concat keeps "
-              "the invariant; the boolean invariant checker is sound and complete. The statistics clause is a theorem over the reals "
-              "(collapse_mean_std_number): with scalars as option R (None = NaN, padding and data alike) the fields of a call "
-              "without custom functions are exactly mean, std, number and equal sum/n, sqrt(sum of squared deviations/n) and n over "
-              "the non-NaN partner values of every reference point, lane and reference; they are NaN/NaN/0 exactly when all partner "
-              "values are NaN; they are invariant under any rearrangement of the pair list; a custom function replaces only the "
-              "default of its own name; a call is a function of (dataset, reference, custom functions) only. Tie: the real expand / "
-              "collapse / concat_collocations / Collocator.collocate on generated datasets and call histories (custom, overriding, "
-              "plain, rearranged pairs, other reference); Coq returns positions, per-lane counts of valid values and field names; "
-              "the harness compares id rows, <var>_number, NaN-ness and field names exactly and mean/std against long-double sums."),
-        note=COMMON_NOTE + " xarray selection/concat and numpy nan-statistics are modelled as list operations and exercised (rounding of nanmean/nanstd compared at 1e-9, infinities not generated); collapse_call_independent holds by construction in the stateless model, the call histories are its tie; the numba row-assignment variant is not installed here; real-number axioms and funext in the statistics theorems.",
-        technique="Coq proof (induction over pair lists, permutations, real arithmetic on option R) + vm_compute correspondence with a certified boolean checker and exact count / NaN masks",
+        text=("32 theorems about list models of the compaction in Collocator._create_return, _rows_for_secondaries, the NaN-padded "
+              "bin matrix of collapse, expand and concat_collocations, for every compact dataset (28 closed under the global "
+              "context): the compaction is consistent for every row of raw pairs - exactly the collocated points stored, each once, "
+              "valid indices, every stored point in a pair, every pair still naming its original point, two pairs sharing a stored "
+              "point iff they share the original point; the pairs are determined by the order of the stored points "
+              "(compact_is_consistent, consistent_no_merged_points, consistent_pairs_determined) - and the built dataset expands to "
+              "the raw pairs carrying the original data (create_return_expands_to_raw_pairs); rows are running counts; column c of "
+              "the bin matrix holds exactly the partner values of reference c in pair order, then padding (any lane, either "
+              "reference); expand gives one row per pair; expand(concat ds) = concat (map expand ds); the boolean checkers applied "
+              "to implementation output are sound. Over the standard-library reals: the fields of a call without custom functions "
+              "are exactly mean, std, number = sum/n, sqrt(sum of squared deviations/n), n over the non-NaN partner values (NaN / "
+              "NaN / 0 iff all are NaN), invariant under rearranging the pair list; a custom function replaces only the default of "
+              "its name; for ANY custom function g the field of (variable, function, reference point) is g of that variable's own "
+              "NaN-padded partner column, independent of the other variables (collapse_custom_function; slot k = (k+1)-th partner in "
+              "pair order or NaN, last slot only for the largest bins); a call is a function of its arguments. Tie: the real expand "
+              "/ collapse / concat_collocations / Collocator.collocate on generated datasets (1-1300 pairs, five variables per group "
+              "incl. two of one shape), call histories (custom incl. view-returning m[0], m[-1], m[h//2]; overriding; plain; "
+              "rearranged pairs; other reference) and collocate results incl. seed-independent and random SPARSE, UNORDERED "
+              "track / station cases (300-3000 points, 3-12 stations, both roles, flat and gridded); id rows, counts, NaN-ness, "
+              "field names and view results are compared exactly, mean / std against long-double sums (1e-9), sparse results also "
+              "against a brute-force search."),
+        note=COMMON_NOTE + " xarray selection/concat and numpy nan-statistics are modelled as list operations and exercised (rounding of nanmean/nanstd compared at 1e-9, infinities not generated); aliasing of numpy views and statelessness are facts about the Python code tied by the view collapsers and call histories, not modelled (collapse_call_independent holds by construction in the stateless model); the numba row-assignment variant is not installed here; real-number axioms and funext in the statistics theorems.",
+        technique="Coq proof (induction over pair lists, permutations, real arithmetic on option R) + vm_compute correspondence with certified boolean checkers and exact count / NaN masks",
         design="5/C13"),
     "C15": dict(
         text=("24 theorems (closed under the global context): crash_safe - after EVERY prefix of the primitive I/O sequence of "
